@@ -251,36 +251,58 @@ def _gen_quantise(r):
         for _ in range(r.randint(0, 8)):
             c, p, t = r.choice([0, 0, 1]), r.choice([60, 61]), G.tick(r, 40)
             ms.append(ON(c, p, 100, t) if r.random() < 0.5 else OFF(c, p, t))
-    return ms, r.choice(G.STEP_POOLS)
+    # trail: the sequence arrives through its relative view and ends with a rest (after pad / split / concatenate),
+    # so that its absolute view carries the INTERNAL end marker
+    trail = r.choice([1, 5, 6, 7, 12, 13, 50]) if r.random() < 0.3 else None
+    return ms, r.choice(G.STEP_POOLS), trail
+
+
+def quant_rel(inp):
+    return G.abs_to_rel(inp[0], library_order=True) + [WT(0, inp[2])]
+
+
+def quant_seq(inp):
+    return mk_rel(quant_rel(inp)) if len(inp) > 2 and inp[2] is not None else mk_abs(inp[0])
 
 
 def _impl_quantise(inp):
-    ms, steps = inp
-    s = mk_abs(ms)
-    s.quantise(list(steps))
+    s = quant_seq(inp)
+    s.quantise(list(inp[1]))
     return show_msgs(abs_of(s))
 
 
 Op("quantise", _gen_quantise, _impl_quantise,
-   lambda inp: f"show_res show_msgs (quantise {INS(inp[0])} {lit_zs(inp[1])})",
+   lambda inp: f"show_res show_msgs (quantise {INS(inp[0])} {lit_zs(inp[1])})" if len(inp) < 3 or inp[2] is None else
+   f"show_res show_msgs (quantise (to_abs {lit_msgs(quant_rel(inp))}) {lit_zs(inp[1])})",
    lambda inp: any(m[0] == "NOTE_ON" and any(m[2] % s for s in inp[1]) for m in inp[0]))
 
 
 # ---------------------------------------------------------------------------------------------- quantise_note_lengths
 def _gen_qnl(r):
     ms = G.gen_abs_wf(r, hi=r.choice([30, 60])) if r.random() < 0.85 else _gen_quantise(r)[0]
-    return ms, r.choice(G.VALUE_POOLS), r.choice([24, 24, 12]), r.random() < 0.5
+    # last: the same request made through the compound public call quantise_and_normalise(step_sizes=[1], ...)
+    return ms, r.choice(G.VALUE_POOLS), r.choice([24, 24, 12]), r.random() < 0.5, r.random() < 0.3
+
+
+def qnl_apply(inp):
+    ms, vals, std, dne = inp[:4]
+    s = mk_abs(ms)
+    if len(inp) > 4 and inp[4]:
+        s.quantise_and_normalise([1], list(vals), standard_length=std, do_not_extend=dne)
+    else:
+        s.quantise_note_lengths(list(vals), standard_length=std, do_not_extend=dne)
+    return s
 
 
 def _impl_qnl(inp):
-    ms, vals, std, dne = inp
-    s = mk_abs(ms)
-    s.quantise_note_lengths(list(vals), standard_length=std, do_not_extend=dne)
-    return show_msgs(abs_of(s))
+    return show_msgs(abs_of(qnl_apply(inp)))
 
 
 Op("qnl", _gen_qnl, _impl_qnl,
-   lambda inp: f"show_msgs (quantise_note_lengths {INS(inp[0])} {lit_zs(inp[1])} {z(inp[2])} {lit_bool(inp[3])})",
+   lambda inp: f"show_msgs (quantise_note_lengths {INS(inp[0])} {lit_zs(inp[1])} {z(inp[2])} {lit_bool(inp[3])})"
+   if not (len(inp) > 4 and inp[4]) else
+   f"show_res show_msgs (do s <- seq_quantise_and_normalise (mkseq {INS(inp[0])} [] false true) [1] {lit_zs(inp[1])} {z(inp[2])} {lit_bool(inp[3])}; "
+   f"do '(_, a_) <- get_abs s; Ok a_)",
    lambda inp: any(m[0] == "NOTE_ON" for m in inp[0]))
 
 
